@@ -58,6 +58,7 @@ type wakeInfo struct {
 }
 
 type Frame struct {
+	jumps int
 	fn         *ssa.Function
 	block      *ssa.BasicBlock
 	prev       *ssa.BasicBlock
